@@ -7,7 +7,7 @@ CONSTANTS
   MaxPos = 5
   MutInCursor = FALSE
   Depth = 0
-  CoverOneIn = 3
+  CoverOneIn = 4
 INVARIANTS TypeOK Inv_Sorted Inv_Capacity Inv_Content Inv_Cover
 PROPERTIES Act_ModuloNamed Act_PrevAlways Act_Ring Act_Classify
 VIEW View
